@@ -601,8 +601,8 @@ func runC19(w *W) {
 		}
 	}
 	// 4. splices between blobs of different modes
-	ns := 3000
-	nr := 20000
+	ns := 15000
+	nr := 100000
 	if th {
 		ns, nr = 400000, 3000000
 	}
